@@ -3,6 +3,8 @@
 //   U32|U64|I32|I64|U16|I16|P|B <v>      util::ToString(value, buf): "OK <hex of [buf,ret)> <footprint>"
 //   DD <bits16hex> / FD <bits8hex>       what the digit generator delivers: "<sign> <digits> <decimal_point>" | inf | -inf | nan
 //   DL D|F <decomposition...> <bits>     util::ToString(double/float from bits): "OK <hex> <footprint>"
+//   TS <op>...                           the same ops on a real util::ThreadedBufferedStream (blocks handed to the writer thread)
+//   SS <op>...                           the same ops on a real util::StringStream (length and checksum of str())
 //   ST <op>...                           real util::FileStream driven by ops (w:<n> p u64:<v> i64:<v> u32:<v> i32:<v> d:<bits> f:<bits> fl),
 //                                        prints the sizes of the writer's write() calls and a checksum of all bytes
 // footprint = number of leading bytes of the destination the call stored to (sentinel 0xAA scan).
@@ -13,9 +15,12 @@
 #include "util/file_stream.hh"
 #include "util/float_to_string.hh"
 #include "util/integer_to_string.hh"
+#include "util/string_stream.hh"
 #include "util/threaded_buffered_stream.hh"
 
 #include <cstdlib>
+#include <cstddef>
+#include <limits>
 #include <cstring>
 #include <stdint.h>
 #include <sys/syscall.h>
@@ -66,6 +71,71 @@ extern "C" int fsync(int fd) { if (g_capture && fd == 99) return 0; return (int)
 extern "C" int close(int fd) { if (g_capture && fd == 99) return 0; return (int)syscall(SYS_close, fd); }
 
 namespace {
+// Writer for ThreadedBufferedStream: records what the writer thread is handed
+struct CaptureWriter {
+  void write(const void *data, std::size_t n) {
+    g_sizes.push_back(n);
+    const unsigned char *p = static_cast<const unsigned char*>(data);
+    for (size_t i = 0; i < n; ++i) { g_sum_a = (g_sum_a + p[i]) % 65521; g_sum_b = (g_sum_b + g_sum_a) % 65521; }
+  }
+  void flush() {}
+};
+
+template <class S> void Drive(S &out, const std::vector<std::string> &t, bool can_flush) {
+  for (size_t i = 1; i < t.size(); ++i) {
+    const std::string &o = t[i];
+    if (o[0] == 'w') { std::string s(std::strtoul(o.c_str() + 2, NULL, 10), 'x'); out << s; }
+    else if (o == "p") out << 'c';
+    else if (!o.compare(0, 4, "u64:")) out << (uint64_t)std::strtoull(o.c_str() + 4, NULL, 10);
+    else if (!o.compare(0, 4, "i64:")) out << (int64_t)std::strtoll(o.c_str() + 4, NULL, 10);
+    else if (!o.compare(0, 4, "u32:")) out << (uint32_t)std::strtoul(o.c_str() + 4, NULL, 10);
+    else if (!o.compare(0, 4, "i32:")) out << (int32_t)std::strtol(o.c_str() + 4, NULL, 10);
+    else if (!o.compare(0, 2, "d:")) out << DoubleOfBits(o.substr(2, o.find(':', 2) - 2));
+    else if (!o.compare(0, 2, "f:")) out << FloatOfBits(o.substr(2, o.find(':', 2) - 2));
+    (void)can_flush;
+  }
+}
+
+void ThreadedStream(const std::vector<std::string> &t) {
+  g_sizes.clear(); g_sum_a = 1; g_sum_b = 0;
+  {
+    util::ThreadedBufferedStream<CaptureWriter> out;
+    Drive(out, t, false);
+  }
+  std::cout << "OK";
+  for (size_t i = 0; i < g_sizes.size(); ++i) std::cout << ' ' << g_sizes[i];
+  std::cout << " sum=" << g_sum_b * 65536 + g_sum_a << "\n";
+}
+
+void StringStreamCase(const std::vector<std::string> &t) {
+  util::StringStream out;
+  Drive(out, t, false);
+  const std::string &s = out.str();
+  g_sum_a = 1; g_sum_b = 0;
+  for (size_t i = 0; i < s.size(); ++i) { g_sum_a = (g_sum_a + (unsigned char)s[i]) % 65521; g_sum_b = (g_sum_b + g_sum_a) % 65521; }
+  std::cout << "OK " << s.size() << " sum=" << g_sum_b * 65536 + g_sum_a << "\n";
+}
+
+// every fundamental type that FakeOStream::operator<< accepts, at its extremes, through the real dispatch (Coerce)
+enum SmallEnum { kEnumNeg = -7, kEnumPos = 12 };
+template <class T> void Both(util::StringStream &out, const char *name) {
+  out << name << '=' << std::numeric_limits<T>::min() << ',' << std::numeric_limits<T>::max() << ' ';
+}
+void Dispatch() {
+  util::StringStream out;
+  Both<short>(out, "short"); Both<unsigned short>(out, "ushort"); Both<int>(out, "int"); Both<unsigned>(out, "uint");
+  Both<long>(out, "long"); Both<unsigned long>(out, "ulong"); Both<long long>(out, "llong"); Both<unsigned long long>(out, "ullong");
+  Both<std::size_t>(out, "size_t"); Both<int16_t>(out, "int16"); Both<uint16_t>(out, "uint16"); Both<int32_t>(out, "int32");
+  Both<uint32_t>(out, "uint32"); Both<int64_t>(out, "int64"); Both<uint64_t>(out, "uint64"); Both<std::ptrdiff_t>(out, "ptrdiff");
+  out << "bool=" << false << ',' << true << ' ';
+  out << "char=" << 'A' << ',' << static_cast<signed char>('B') << ',' << static_cast<unsigned char>('C') << ' ';
+  out << "enum=" << kEnumNeg << ',' << kEnumPos << ' ';
+  out << "cstr=" << "lit" << ',' << std::string("str") << ',' << util::StringPiece("piece") << ' ';
+  out << "ptr=" << static_cast<const void*>(0) << ',' << reinterpret_cast<const void*>(static_cast<uintptr_t>(0xdeadbeef)) << ' ';
+  out << "dbl=" << 0.5 << ',' << -1e300 << ',' << 1.0f << ',' << -2.5e-7f;
+  std::cout << out.str() << "\n";
+}
+
 void Stream(const std::vector<std::string> &t) {
   g_sizes.clear(); g_sum_a = 1; g_sum_b = 0;
   g_capture = true;
@@ -119,6 +189,9 @@ int main() {
     else if (t.size() >= 3 && c == "DL" && t[1] == "D") Format<double>(DoubleOfBits(t.back()));
     else if (t.size() >= 3 && c == "DL" && t[1] == "F") Format<float>(FloatOfBits(t.back()));
     else if (c == "ST") Stream(t);
+    else if (c == "TS") ThreadedStream(t);
+    else if (c == "SS") StringStreamCase(t);
+    else if (c == "DISPATCH") Dispatch();
     else std::cout << "?\n";
   }
   return 0;
